@@ -663,7 +663,7 @@ crash_harness!(c01_crash_recover_p0_bytes, 0, 1, None, None, 130);
 // @bound as c01_crash_recover_p0_w16
 // @stubs xxh3_checksum -> injective uninterpreted function; alloc::fmt::format -> empty string
 #[kani::proof]
-#[kani::unwind(18)]
+#[kani::unwind(130)]
 #[kani::stub(crate::tree_store::page_store::page_manager::xxh3_checksum, uf_checksum)]
 #[kani::stub(alloc::fmt::format, no_format)]
 fn c01_twin_crash_must_fail() {
